@@ -1410,6 +1410,30 @@ def register_builtins(L):
         st.assume(z3.ToReal(c) >= x, z3.ToReal(c) < x + 1)
         return c
 
+    @fn("np.isclose")
+    def _np_isclose(E, st, args, kw, node):
+        """np.isclose(a, b, rtol=1e-05, atol=1e-08): |a - b| <= atol + rtol * |b| elementwise, False where an operand is NaN (real arithmetic)"""
+        _used(E, "np.isclose: |a - b| <= atol + rtol * |b| (NaN compares False)")
+        a, b = as_array(args[0], st), as_array(args[1], st)
+        if a is None or b is None or kw.get("equal_nan", False) is not False:
+            return _np_pure(E, st, args, kw, node)
+        rtol = kw.get("rtol", args[2] if len(args) > 2 else 1e-05)
+        atol = kw.get("atol", args[3] if len(args) > 3 else 1e-08)
+        if not isinstance(rtol, (int, float)) or not isinstance(atol, (int, float)):
+            return _np_pure(E, st, args, kw, node)
+        shape, fa, fb = _broadcast(a, b)
+        rt, at = z3.RealVal(repr(float(rtol))), z3.RealVal(repr(float(atol)))
+
+        def sel(*i):
+            na, va = to_real(fa(*i))
+            nb, vb = to_real(fb(*i))
+            d = z3.If(va >= vb, va - vb, vb - va)
+            ab = z3.If(vb >= 0, vb, -vb)
+            return z3.And(z3.Not(na), z3.Not(nb), d <= at + rt * ab)
+        if not shape:
+            return sel()
+        return st.alloc(ArrData(shape, sel, "b"))
+
     @fn("np.ix_")
     def _np_ix(E, st, args, kw, node):
         return IxTuple(args)
